@@ -121,12 +121,12 @@ fn build<const D: usize>(id: &str, rng: &mut Rng, out: &mut Out, periodic: bool)
 
 pub fn run(cfg: &Cfg, rng: &mut Rng, out: &mut Out) {
     let thorough = cfg.tier == "thorough";
-    let nw = if thorough { 400 } else { 60 };
+    let nw = if thorough { 400 } else { 160 };
     for i in 0..(if thorough { 40 } else { 8 }) {
         wraps::<2>(&format!("w2_{i}"), rng, out, nw);
         wraps::<3>(&format!("w3_{i}"), rng, out, nw);
     }
-    let nb = if thorough { 200 } else { 24 };
+    let nb = if thorough { 200 } else { 72 };
     for i in 0..nb {
         build::<2>(&format!("t2_{i}"), rng, out, false);
         if i % 2 == 0 { build::<3>(&format!("t3_{i}"), rng, out, false); }
